@@ -110,7 +110,7 @@ theorem go_LastOffsetForLeaderEpoch (c : Epochs) (epoch : Nat) :
   | none => simp [gomini]
   | some e => simp [gomini, encEpoch]
 
-/-- `ClearEarliest`: nothing when the cache starts at or after the offset or no entry lies below it; else the entries below
+/- `ClearEarliest`: nothing when the cache starts at or after the offset or no entry lies below it; else the entries below
 are dropped, the last of them is put back at `offset` when the remainder would start later (or be empty), one flush. -/
 set_option maxRecDepth 8000 in
 set_option maxHeartbeats 1600000 in
